@@ -78,6 +78,7 @@ type ShardResult struct {
 	ReplayResult *Violation       `json:"replay_result,omitempty"`
 	Minimised    *Replay          `json:"minimised,omitempty"`
 	MinExecs     int              `json:"min_execs,omitempty"`
+	HashLines    []string         `json:"hash_lines,omitempty"`
 }
 
 func (v *Violation) FP() string { return v.Kind + "|" + v.Site }
